@@ -263,4 +263,18 @@ example : mpzSqrtrem 99 = .ok (9, 18) ∧ mpzSqrt (-1) = .error "sqrtneg" ∧ mp
     mpzPerfectSquareP 1 = true ∧ mpzPerfectSquareP (-4) = false ∧ mpzPerfectSquareP 8 = false := by
   decide +kernel
 
+/-- The final adjustment of both n-th root algorithms (rootrem.c:329-352 `for (c = 0;; c++) { ... if
+    (S^k > R) S--; else break; }`, rootrem_basecase.c:90-98 `if (U < x^nth) x--`): from any candidate in the
+    range the code guarantees (the code ASSERTs at most one decrement, i.e. `root ≤ S ≤ root + 1`; the
+    model's loop allows two) it returns the exact floor root and the remainder `R − root^k`. -/
+theorem root_final_adjust (k R s : Nat) (hk : 0 < k) (h1 : iroot k R ≤ s) :
+    (s ≤ iroot k R + 2 → finalAdjust k R s = (iroot k R, R - (iroot k R) ^ k)) ∧
+    (s ≤ iroot k R + 1 → finalAdjust1 k R s = (iroot k R, R - (iroot k R) ^ k)) := by
+  constructor
+  · intro h2; unfold finalAdjust; rw [adjustDown_spec k R hk 2 s h1 h2]; rfl
+  · intro h2; unfold finalAdjust1; rw [adjustDown_spec k R hk 1 s h1 h2]; rfl
+
+example : finalAdjust 3 1000 11 = (10, 0) ∧ finalAdjust1 5 (3 ^ 5 - 1) 3 = (2, 3 ^ 5 - 1 - 2 ^ 5) := by
+  decide +kernel
+
 end Mpir.Root
